@@ -60,6 +60,9 @@ func (g *Gen) Emit(in interface{}) {
 // expensive construction for other shards while keeping the PRNG stream identical).
 func (g *Gen) Mine() bool { return g.seen%g.n == g.shard }
 
+// MineAfter reports whether the Emit after the next k ones would be processed by this shard.
+func (g *Gen) MineAfter(k int) bool { return (g.seen+k)%g.n == g.shard }
+
 // Count records one observation of a categorical dimension of the input distribution.
 func (g *Gen) Count(dim, val string) {
 	if g.seen%g.n != g.shard {
